@@ -363,7 +363,10 @@ class VBPTC12873:
         )
 
         # calculate 5-bit checksum and put bits in correct table positions
-        cs5 = FiveBitChecksum.calculate(bits_deinterleaved.tobytes())
+        # octets are taken from the bit string in index order, whatever the storage endianness of the input
+        cs5 = FiveBitChecksum.calculate(
+            bitarray(bits_deinterleaved, endian="big").tobytes()
+        )
         cs5_bits = int2ba(cs5, length=5)
         # int2ba is big-endian, cs5_bits[0] is CS(4) which belongs to row 3, CS(0) to row 7
         table[2][10] = cs5_bits[0]
